@@ -163,6 +163,12 @@ theorem NoOof.append {a b : List Err} (ha : NoOof a) (hb : NoOof b) : NoOof (a +
   · exact ha e h
   · exact hb e h
 
+theorem NoOof.appendNew {a b : List Err} (ha : NoOof a) (hb : NoOof b) : NoOof (appendNewErrs a b) := by
+  intro e he
+  rcases (mem_appendNewErrs e b a).mp he with h | h
+  · exact ha e h
+  · exact hb e h
+
 theorem NoOof.single {e : Err} (h : e.cls ≠ "out-of-fuel") : NoOof [e] := by
   intro e' he'
   rw [List.mem_singleton] at he'
@@ -258,7 +264,7 @@ theorem overlayType_noOof {env : Env} {root : Mod} {t : Stmt} {src : Source} {td
     · exact NoOof.single (by rw [bare_cls]; decide)
     · unfold stepMembers
       simp only
-      apply NoOof.append
+      apply NoOof.appendNew
       · apply stepPosix_noOof
         unfold overlayLocal
         simp only []
